@@ -34,6 +34,7 @@ CONSTANTS Slots, KVals, AVals, VVals, BadV, MaxBatch,
           WithHandle,    \* BOOLEAN: explore searches evaluated now and collected after later writes (C20)
           WithFlushOne,  \* BOOLEAN: explore Flush(o) / FlushAndCommit(o) of single objects
           WithDrop,      \* BOOLEAN: explore Drop (followed by Create) on the live handle
+          WithRepair,    \* BOOLEAN: explore Repair called on the live, healthy handle
           Dev,           \* enabled deviations
           BatchFilter(_) \* which batches are explored (generation configs thin them out)
 
@@ -238,6 +239,15 @@ DropCreate(c) ==
      THEN /\ didx' = midx /\ dcfg' = cfg /\ UNCHANGED <<midx, cfg, cache, pending, started>>
      ELSE /\ didx' = Empty /\ dcfg' = c /\ midx' = Empty /\ cfg' = c /\ cache' = Empty /\ pending' = Empty /\ started' = FALSE
 
+\* Repair on a live handle whose index is in order changes nothing: an object whose accepted write is still
+\* pending has no file yet, but it is not "missing".  Deviation RepairDropsPending (the code as found): Repair
+\* compares the index with the directory listing only and drops the entries of pending objects.
+RepairLive ==
+  /\ Ready /\ WithRepair /\ ~hnd.live /\ HSame /\ Log([op |-> "repair"]) /\ Started
+  /\ midx' = IF "RepairDropsPending" \in Dev THEN [u \in DOMAIN midx \cap DOMAIN files |-> midx[u]] ELSE midx
+  /\ res' = "ok"
+  /\ UNCHANGED <<files, didx, dcfg, loaded, cfg, cache, pending, slept, astore>>
+
 \* Close (flush every collection, commit every loaded schema), then a new handle
 Reopen(create) ==
   /\ Room /\ ~hnd.live /\ HSame /\ Log([op |-> "reopen", close |-> TRUE, create |-> create])
@@ -301,6 +311,7 @@ CollNext ==
   \/ \E c \in BOOLEAN : FlushAll(c)
   \/ \E u \in Slots, c \in BOOLEAN : FlushOne(u, c)
   \/ \E c \in Cfgs : Switch(c)
+  \/ RepairLive
   \/ FlusherPoll
 \* ... and steps of the whole database: Close / abandon + new handle, Drop, the clock
 Next ==
